@@ -256,6 +256,10 @@ func (p *Plugin) Restart() error {
 	return p.Stub.Start(context.Background())
 }
 
+// SyncedCh and ClosedCh return the current session's channels (Restart replaces them).
+func (p *Plugin) SyncedCh() chan struct{} { p.smu.Lock(); defer p.smu.Unlock(); return p.Synced }
+func (p *Plugin) ClosedCh() chan struct{} { p.smu.Lock(); defer p.smu.Unlock(); return p.Closed }
+
 func (p *Plugin) StopStub() {
 	if p.Stub != nil {
 		p.Stub.Stop()
